@@ -99,6 +99,41 @@ def memo_rules(index: RepoIndex, rep, rule: str, eff, only_rel=None) -> None:
                   f'memoised {name} mutates {sorted(s.mut_params)} / writes '
                   f'{sorted(s.global_writes)}: later answers depend on earlier calls',
                   f'{name} pure')
+        # keys must identify the input: grids, grid objects, agents, states and observations
+        # compare by type / status / colour only (a Box's content and object identity are not
+        # part of their equality), so two different inputs share one cache entry and the cached
+        # answer hands out the *first* input's objects
+        VALUE_EQ = ('GridObject', 'Grid', 'State', 'Observation', 'Agent')
+        import re as _re
+        weak = [a_.arg for a_ in fn.params() if a_.annotation is not None and
+                any(_re.search(rf'\b{t_}\b', src(a_.annotation)) for t_ in VALUE_EQ)]
+        if not weak:
+            # unannotated: what the call sites pass
+            pnames = [a_.arg for a_ in fn.params()]
+            for q2, g2 in eff.funcs.items():
+                for e2 in eff.walks[q2].events:
+                    callee_ = src(e2.node.func) if e2.kind == 'call' else ''
+                    if e2.kind == 'call' and callee_ != name and \
+                            isinstance(e2.node.func, ast.Name):
+                        # called through a table of functions: `f = TABLE[k]; f(x)`
+                        fx = eff.walks[q2].expand(e2.node.func)
+                        if isinstance(fx, ast.Subscript) and isinstance(fx.value, ast.Name):
+                            tv = g2.module.assigns.get(fx.value.id, [])
+                            if len(tv) == 1 and isinstance(tv[0], ast.Dict) and \
+                                    any(src(v_) == name for v_ in tv[0].values):
+                                callee_ = name
+                    if e2.kind == 'call' and callee_ == name:
+                        for i2, a2 in enumerate(e2.node.args):
+                            t2 = src(eff.walks[q2].expand(a2))
+                            if _re.search(r'\.objects\b|\bself\b(?!\.)|\.grid\b|\bstate\b', t2) \
+                                    and g2.cls is not None and i2 < len(pnames) and \
+                                    g2.cls.name in VALUE_EQ + ('Grid',):
+                                weak.append(pnames[i2])
+        rep.check(not weak, rule, rel, fn.short, fn.node.lineno, f'{name}({", ".join(weak)})',
+                  f'memoised {name} is keyed on {sorted(set(weak))}: grids and grid objects '
+                  f'compare by type, status and colour only, so different inputs (a Box with '
+                  f'another content, another state that looks alike) share a cache entry and get '
+                  f'the first input\'s objects back', f'{name}: keys identify the input')
         # a key object with hand-written equality: what the body reads from it must be what the
         # equality compares, or two different inputs share one cache entry
         for a_ in fn.params():
@@ -148,6 +183,17 @@ def memo_rules(index: RepoIndex, rep, rule: str, eff, only_rel=None) -> None:
                 ann = src(fn.node.returns) if fn.node.returns is not None else ''
                 immutable = ann in ('int', 'float', 'bool', 'str') or ann.startswith('Tuple[') \
                     or ann.startswith('tuple[')
+                rc_ = index.find_class(ann.strip("'\"").split('[')[0].split('.')[-1]) if ann else None
+                if rc_ is not None:
+                    decos_ = [src(d_) for d_ in rc_.node.decorator_list]
+                    immutable = any('frozen=True' in d_ for d_ in decos_) or \
+                        any(b_.endswith('Enum') for b_ in rc_.bases)
+                # the cached object itself returned to the caller (`return cached(..)`): a
+                # mutable result becomes storage shared by everyone who asks
+                if not immutable:
+                    for x in wq.events:
+                        if x.kind == 'return' and x.value is e.node:
+                            bad_uses.append(src(x.stmt)[:80] + '  (returns the cached object)')
                 for bn in bound:
                     if not immutable:
                         for d_ in wq.defs.get(bn, []):
@@ -187,6 +233,58 @@ def memo_rules(index: RepoIndex, rep, rule: str, eff, only_rel=None) -> None:
                           f'{bad_uses[:2]} -- later calls would see the change',
                           f'{g.short}: result of {name} only read')
 
+
+
+def one_object_per_cell(index: RepoIndex, rep, rule: str) -> None:
+    """every place that fills grid cells from an object factory calls the factory once per cell:
+    `Grid.from_shape` builds rows and cells by two nested comprehensions with the call in the
+    innermost element; the drawing helpers store `factory()` directly into the cell inside the
+    per-cell loop.  A row built once and replicated, or an object created once and stored into
+    several cells, is one mutable object (a Door!) living in several cells."""
+    rep.rule(rule, 'cells filled from an object factory get one object each (no object is '
+             'placed in two cells)', floor=3)
+    fs = index.func(GRID, 'Grid.from_shape')
+    w = walk_function(fs.node)
+    fac = next((a.arg for a in fs.params() if 'factory' in a.arg.lower()), None)
+    if fac is None:
+        raise AnalysisError('Grid.from_shape lost its factory parameter')
+    rets = [e for e in w.events if e.kind == 'return' and e.value is not None]
+    ok = bool(rets)
+    got = ''
+    for r in rets:
+        v = w.expand(r.value)
+        got = src(v)[:120]
+        rows = v.args[0] if isinstance(v, ast.Call) and src(v.func) == 'Grid' and \
+            len(v.args) == 1 else None
+        good = isinstance(rows, ast.ListComp) and isinstance(rows.elt, ast.ListComp) and \
+            any(isinstance(n, ast.Call) and src(n.func) == fac for n in ast.walk(rows.elt.elt)) \
+            and not any(isinstance(n, ast.Call) and src(n.func) == fac
+                        for g in rows.generators + rows.elt.generators for n in ast.walk(g.iter))
+        ok = ok and good
+    rep.check(ok, rule, GRID, 'Grid.from_shape', fs.node.lineno, got,
+              f'Grid.from_shape does not call `{fac}()` once per cell (rows or objects are '
+              f'replicated): cells would share one object, so opening one door opens another',
+              'from_shape: one object per cell')
+    design = index.module('gym_gridverse/design.py')
+    n = 0
+    for fn in design.functions.values():
+        fp = [a.arg for a in fn.params() if 'factory' in a.arg.lower()]
+        if not fp:
+            continue
+        w2 = walk_function(fn.node)
+        for e in w2.events:
+            if e.kind != 'call' or src(e.node.func) not in fp:
+                continue
+            n += 1
+            st = e.stmt
+            direct = isinstance(st, ast.Assign) and st.value is e.node and \
+                len(st.targets) == 1 and isinstance(st.targets[0], ast.Subscript) and bool(e.loops)
+            rep.check(direct, rule, design.relpath, fn.name, e.line, src(st)[:100],
+                      f'{fn.name} does not store `{src(e.node)}` straight into one cell per '
+                      f'iteration: the object could end up in several cells',
+                      f'{fn.name}: one object per drawn cell')
+    if n < 2:
+        raise AnalysisError('design.py: fewer than 2 factory calls found (anchor moved)')
 
 
 def run(index: RepoIndex, rep) -> None:
@@ -307,6 +405,10 @@ def run(index: RepoIndex, rep) -> None:
                 if fn.name.endswith('_convert') or fn.name.endswith('_space'):
                     check_ro(fn, set(), 'representation function')
 
+    # ---------------------------------------------------------------- R4 (model-independent:
+    # decided before the slice / rotation models, which may refuse a rewritten grid)
+    memo_rules(index, rep, 'C03.R4', eff)
+
     # ---------------------------------------------------------------- R3
     geo = Geometry(index)
     pipe = Pipeline(index, geo)
@@ -349,8 +451,6 @@ def run(index: RepoIndex, rep) -> None:
               '; '.join(src(e.stmt) for e in bad) or 'from_visibility',
               'from_visibility stores into the state', 'state only referenced')
 
-    # ---------------------------------------------------------------- R4
-    memo_rules(index, rep, 'C03.R4', eff)
 
     # ---------------------------------------------------------------- R7
     rep.rule('C03.R7', 'no default argument is a constructed object: it would be one instance '
@@ -369,6 +469,7 @@ def run(index: RepoIndex, rep) -> None:
                               f'mutable component)')
     rep.holds('C03.R7', 'scan', f'{n_fn} functions: no constructed default argument')
 
+    one_object_per_cell(index, rep, 'C03.R8')
     # ---------------------------------------------------------------- R6
     component_decorators(index, rep, 'C03.R6')
     copy_protocol(index, rep, 'C03.R6')
